@@ -25,6 +25,31 @@ from nunavut.lang._common import IncludeGenerator
 BODY = 'uint8 x\n@sealed\n'
 
 
+class _Ver:
+    def __init__(self, major, minor):
+        self.major, self.minor = major, minor
+
+
+class FakeType:
+    """the attributes of pydsdl.CompositeType that build_namespace_tree / make_path / the enumeration read; used for type sets
+    pydsdl itself refuses (a type named like a sibling sub-namespace, spellings differing only in case)"""
+
+    def __init__(self, ns, short, major, minor):
+        self.full_namespace = '.'.join(ns)
+        self.short_name = short
+        self.full_name = self.full_namespace + '.' + short
+        self.name_components = list(ns) + [short]
+        self.version = _Ver(major, minor)
+        self.attributes = []
+
+    def __hash__(self):
+        return hash((self.full_name, self.version.major, self.version.minor))
+
+    def __eq__(self, other):
+        return isinstance(other, FakeType) and (self.full_name, self.version.major, self.version.minor) == \
+            (other.full_name, other.version.major, other.version.minor)
+
+
 def snapshot(root):
     out = set()
     for d, dirs, files in os.walk(root):
@@ -82,7 +107,10 @@ def run_case(work, case):
     res['ext'] = lang.extension
     res['stem'] = lang.get_config_value(Language.WKCV_NAMESPACE_FILE_STEM, Namespace.DefaultOutputStem)
 
-    parsed = pydsdl.read_namespace(root_dir, [])
+    if case.get('mock'):
+        parsed = [FakeType(*t) for t in types]      # build_namespace_tree is duck-typed; the source folders exist (write_types)
+    else:
+        parsed = pydsdl.read_namespace(root_dir, [])
     random.Random(case.get('shuffle', 0)).shuffle(parsed)
     res['order'] = [tkey(t) for t in parsed]
 
